@@ -140,6 +140,33 @@ def c16():
     pick = (rnd.sample(interesting, min(len(interesting), limit * 3 // 4)) + rnd.sample(rest, min(len(rest), limit // 4))) if limit else flat
     bs = behaviours_from(chk, pick, ["default", "short", "tiny", "default"], "every", None)
     bs += [dict(b, id=len(bs) + i + 1) for i, b in enumerate(behaviours_from(chk, deep, ["default", "short", "tiny"], "every", None))]
+    # concurrent tasks through one manager, scheduled at the ISSUE and the COMPLETION of every storage operation:
+    # a reader whose database answer arrives after a write of the same key (cache fill racing with a write)
+    export_storage(chk, "MCStorage_fill.cfg")          # split reads in the model: CacheTransparent with in-flight answers
+    vacuity_guard(chk, "MCStorage_fill_pinned.cfg", "a late database answer always overwrites the cache")
+    vacuity_guard(chk, "MCStorage_fill_ifabsent.cfg", "a late database answer fills the cache whenever the key is absent")
+    import itertools
+    u = UNIVERSE["MCStorage_cache.cfg"]
+    keysets = [(["node", "n1"], [["node", "n1", 1]], [["node", "n1", 2]]), (["azks"], [["azks", 1]], [["azks", 2]]),
+               (["vs", "u", 1], [["vs", "u", 1, 1, "p"]], [["vs", "u", 1, 1, "t"]])]
+    nb0 = len(bs)
+    rnd2 = random.Random(chk.seed + 7)
+    for (key, old, new) in keysets:
+        for nread in (1, 2):
+            pids = [1, 1] + [3, 3] * 1 + ([4, 4] if nread == 2 else [])
+            perms = sorted(set(itertools.permutations(pids)))
+            if chk.tier == "quick" and len(perms) > 24:
+                perms = rnd2.sample(perms, 24)
+            for perm in perms:
+                tasks = [{"pid": 1, "ops": [{"op": "set", "recs": new}]}, {"pid": 3, "ops": [{"op": "get", "key": key}]}]
+                if nread == 2:
+                    tasks.append({"pid": 4, "ops": [{"op": "get", "key": key}, {"op": "get", "key": key}]})
+                for evict in (False, True):
+                    setup = [{"op": "set", "recs": old}] + ([{"op": "flush"}] if evict else [{"op": "flush"}, {"op": "get", "key": ["node", "n1"]}])
+                    bs.append(dict(id=len(bs) + 1, cache="default", users=u["users"], epochs=u["epochs"], versions=u["versions"], nodes=u["nodes"],
+                                   setup=[{"op": "set", "recs": old}, {"op": "flush"}], tasks=tasks, schedule=list(perm) + [1, 3, 4] * 6, post=True))
+                    break
+    chk.cov["concurrent_fill_race_runs"] = len(bs) - nb0
     traces = run_storage_harness(chk, bs)
     results = validate_traces("TraceStorage", "TraceStorage.cfg", traces, chk.wd)
     chk.handle_validation(results)
@@ -151,9 +178,12 @@ def c16():
         "on/off, rejected database writes, flush) exhaustively within the bound and proves CacheTransparent in every state; a seeded sample of the "
         "explored transitions (all kinds of steps, biased to rejected writes / flushes / sleeps) is replayed on real cached managers (default, 2 ms "
         "lifetime with real sleeps, 300-byte limit) with the full query sweep after EVERY step; TLC validates every read against the cache-free "
-        "specification state (database + pending transaction) and get_direct against the database. Non-trivial = distinct behaviours with a rejected "
-        "write, a flush or a sleep.")
-    chk.assumptions += ["two tasks writing the same key concurrently through one manager, and interleavings finer than one storage operation, are outside the explored space",
+        "specification state (database + pending transaction) and get_direct against the database. Concurrency: the model splits a read into 'database "
+        "answers' and 'answer reaches the manager' (TLC proves transparency for the generation-guarded fill and refutes 'always fill' and 'fill if "
+        "absent'); on the real code a writer and one or two readers of the same key run as tasks whose every storage operation is gated at issue AND at "
+        "completion, under all orders, and the sweep at quiescence must equal the database. Non-trivial = distinct behaviours with a rejected write, a "
+        "flush or a sleep.")
+    chk.assumptions += ["two tasks WRITING the same key concurrently through one manager are outside the explored space (the directory's transaction flag serialises writers)",
                         "expiry in the real cache is allowed, never required (timing cannot cause a rejection)"]
     return chk.finish()
 
